@@ -187,6 +187,25 @@ def _repo_tag():
     return "" if REPO == "/repo" else "-" + hashlib.sha1(REPO.encode()).hexdigest()[:8]
 
 
+_PRIVATE = {}
+
+
+def _private_dir(stem):
+    """.work/<stem>.<pid>, fresh; directories of the same stem left by processes that are gone are removed."""
+    if stem in _PRIVATE:
+        return _PRIVATE[stem]
+    os.makedirs(WORK, exist_ok=True)
+    for d in os.listdir(WORK):
+        m = re.match(re.escape(stem) + r"\.(\d+)$", d)
+        if m and not os.path.exists("/proc/%s" % m.group(1)):
+            shutil.rmtree(os.path.join(WORK, d), ignore_errors=True)
+    p = os.path.join(WORK, "%s.%d" % (stem, os.getpid()))
+    shutil.rmtree(p, ignore_errors=True)
+    os.makedirs(p, exist_ok=True)
+    _PRIVATE[stem] = p
+    return p
+
+
 def overlay_path():
     return os.path.join(WORK, "overlay%s.json" % _repo_tag())
 
@@ -202,16 +221,17 @@ def build_overlay():
                 continue
             rel = os.path.relpath(d, base)
             rep[os.path.join(REPO, rel, "zz_verif_" + f)] = os.path.join(d, f)
-    with open(overlay_path(), "w") as fh:
+    tmp = "%s.%d" % (overlay_path(), os.getpid())      # concurrent runs: never expose a half-written file
+    with open(tmp, "w") as fh:
         json.dump({"Replace": rep}, fh, indent=1)
+    os.replace(tmp, overlay_path())
     return overlay_path()
 
 
 def go_build_test(pkg, tags="verif", timeout=1500):
     """Compile the test binary of a repo package (current working tree + overlay)."""
     build_overlay()
-    bindir = os.path.join(WORK, "bin" + _repo_tag())
-    os.makedirs(bindir, exist_ok=True)
+    bindir = _private_dir("bin" + _repo_tag())       # one per process: runs of several checks may overlap
     out = os.path.join(bindir, pkg.strip("./").replace("/", "_") + "." + tags.replace(",", "_") + ".test")
     cmd = ["go", "test", "-c", "-vet=off", "-tags", tags, "-overlay", overlay_path(), "-o", out, pkg]
     rc, o, wall = sh(cmd, cwd=REPO, env=GOENV, timeout=timeout)
@@ -236,9 +256,7 @@ class Ctx:
         self.prop, self.tier, self.seed = prop, tier, seed
         self.quick = (tier == "quick")
         self.t0 = time.time()
-        self.work = os.path.join(WORK, prop + _repo_tag())
-        shutil.rmtree(self.work, ignore_errors=True)
-        os.makedirs(self.work, exist_ok=True)
+        self.work = _private_dir(prop + _repo_tag() + "-" + tier)
         self.states = 0
         self.transitions = 0
         self.traces = 0
